@@ -307,14 +307,20 @@ func c19DDL(env *core.Env, rep int) *core.CaseResult {
 	db := sqlx.Open(fmt.Sprintf("%s/c19ddl_%d", env.TmpDir, rep), []int{512, 1024}[r.Intn(2)], sqlx.Options{})
 	db.CreateTableSQL("base", ilCols)
 	done := make(chan struct{})
-	go func() {
-		defer close(done)
-		defer func() { recover() }()
-		for i := 0; i < 6; i++ {
-			db.S.ExecuteSQL(fmt.Sprintf("CREATE TABLE extra%d(id INT, k INT, v VARCHAR(100));", i))
-			db.S.ExecuteSQL(fmt.Sprintf("INSERT INTO extra%d(id, k, v) VALUES (1, 1, 'x');", i))
-		}
-	}()
+	// three callers create tables at the same time (next to the DML callers below)
+	var ddl sync.WaitGroup
+	for d := 0; d < 3; d++ {
+		ddl.Add(1)
+		go func(d int) {
+			defer ddl.Done()
+			defer func() { recover() }()
+			for i := 0; i < 4; i++ {
+				db.S.ExecuteSQL(fmt.Sprintf("CREATE TABLE extra%dx%d(id INT, k INT, v VARCHAR(100));", d, i))
+				db.S.ExecuteSQL(fmt.Sprintf("INSERT INTO extra%dx%d(id, k, v) VALUES (1, 1, 'x');", d, i))
+			}
+		}(d)
+	}
+	go func() { ddl.Wait(); close(done) }()
 	var n atomic.Int64
 	var wg sync.WaitGroup
 	for c := 0; c < 4; c++ {
